@@ -3146,6 +3146,9 @@ class TypeBlocks(ContainerOperand):
             return False
         if compare_dtype and self._dtypes != other._dtypes: # these are lists
             return False
+        if not self._blocks:
+            # equal shapes and no columns: there is no value to compare
+            return True
 
         # NOTE: TypeBlocks handles array operations that return Boolean
         try:
